@@ -113,13 +113,20 @@ func (s *Service) HandleMessage(ctx context.Context, conn ReadWriterContext, req
 
 // Shutdown shuts down the listener of a running service.
 func (s *Service) Shutdown() error {
-	s.running = false
 	s.mutex.Lock()
 	defer s.mutex.Unlock()
+	s.running = false
 	if s.listener == nil {
 		return nil
 	}
 	return s.listener.Close()
+}
+
+// isRunning reports whether the serving loop should continue.
+func (s *Service) isRunning() bool {
+	s.mutex.Lock()
+	defer s.mutex.Unlock()
+	return s.running
 }
 
 func (s *Service) handleConnection(ctx context.Context, conn net.Conn, wg *sync.WaitGroup) {
@@ -268,7 +275,7 @@ func (s *Service) Listen(ctx context.Context, address string, timeout time.Durat
 	l := s.listener
 	s.mutex.Unlock()
 
-	for s.running {
+	for s.isRunning() {
 		if timeout != 0 {
 			if err := s.refreshTimeout(timeout); err != nil {
 				return err
@@ -285,7 +292,7 @@ func (s *Service) Listen(ctx context.Context, address string, timeout time.Durat
 				s.mutex.Unlock()
 				continue
 			}
-			if !s.running {
+			if !s.isRunning() {
 				return nil
 			}
 			return err
@@ -317,7 +324,7 @@ func (s *Service) DoListen(ctx context.Context, timeout time.Duration) error {
 	s.running = true
 	s.mutex.Unlock()
 
-	for s.running {
+	for s.isRunning() {
 		if timeout != 0 {
 			if err := s.refreshTimeout(timeout); err != nil {
 				return err
@@ -334,7 +341,7 @@ func (s *Service) DoListen(ctx context.Context, timeout time.Duration) error {
 				s.mutex.Unlock()
 				continue
 			}
-			if !s.running {
+			if !s.isRunning() {
 				return nil
 			}
 			return err
@@ -352,6 +359,10 @@ func (s *Service) DoListen(ctx context.Context, timeout time.Duration) error {
 // RegisterInterface registers a varlink.Interface containing struct to the Service
 func (s *Service) RegisterInterface(iface dispatcher) error {
 	name := iface.VarlinkGetName()
+	description := iface.VarlinkGetDescription()
+
+	s.mutex.Lock()
+	defer s.mutex.Unlock()
 	if _, ok := s.interfaces[name]; ok {
 		return fmt.Errorf("interface '%s' already registered", name)
 	}
@@ -360,7 +371,7 @@ func (s *Service) RegisterInterface(iface dispatcher) error {
 		return fmt.Errorf("service is already running")
 	}
 	s.interfaces[name] = iface
-	s.descriptions[name] = iface.VarlinkGetDescription()
+	s.descriptions[name] = description
 	s.names = append(s.names, name)
 
 	return nil
